@@ -254,6 +254,23 @@ func C17(c *run.Ctx) {
 				}
 			}
 		}
+		// ---- a push authenticated as one client (header) while naming another client in the body: whatever request_uri comes
+		// back belongs to the AUTHENTICATED client and must not start an authorization for the named one
+		{
+			f := goodForm("conf-b")
+			out := w.PAR(f, world.Basic("conf-a", "secret-of-a"))
+			c.Case(fmt.Sprintf("push header-client=conf-a body-client_id=conf-b accepted=%v err=%s", out.Err == nil, out.ErrName))
+			hist = append(hist, fmt.Sprintf("push authenticated as conf-a with client_id=conf-b in the body => %s %s", out.S("request_uri"), world.ErrDetail(out.Err)))
+			if out.Err == nil {
+				az := w.Authorize(url.Values{"client_id": {"conf-b"}, "request_uri": {out.S("request_uri")}}, world.Consent{})
+				okB := az.Err == nil && (az.Params.Get("code") != "" || az.Params.Get("access_token") != "")
+				hist = append(hist, fmt.Sprintf("use as conf-b => ok=%v %s", okB, world.ErrDetail(az.Err)))
+				if okB {
+					viol("request-uri-cross-client", "pushed-by-header-client-used-for-body-client", "a request pushed by conf-a (authenticated in the Authorization header) started an authorization for conf-b, named only in the body")
+				}
+			}
+			c.Count("c17_header_body_mismatch_pushes", 1)
+		}
 		// ---- unknown / foreign-prefix URIs and enforcement
 		for _, u := range []string{effPrefix + "does-not-exist", "urn:ietf:params:oauth:request_uri:" + "AAAA", "urn:other:prefix:xyz", effPrefix} {
 			out := w.Authorize(url.Values{"client_id": {"conf-a"}, "request_uri": {u}, "response_type": {"code"}, "scope": {"fosite"}, "state": {"state-0123456789"}, "redirect_uri": {"https://app-a.example/cb"}}, world.Consent{})
